@@ -6,6 +6,7 @@
 From Coq Require Import List NArith ZArith Bool Lia String.
 From GMK Require Import TableTypes gen.Tables gen.GrammarGen LexDriver LRDriver Grammar LexSpec CorrBase.
 Import ListNotations.
+Local Open Scope list_scope.
 Local Open Scope nat_scope.
 Local Notation length := List.length.
 
@@ -211,9 +212,9 @@ Proof.
     assert (Hin : In s states) by (apply in_seq; lia).
     specialize (Hnr s Hin). apply andb_prop in Hnr. destruct Hnr as [Hnr _].
     apply andb_prop in Hnr. destruct Hnr as [Hn1 Hn2]. split.
-    + destruct (can_recover s) as [[|]|]; try discriminate. reflexivity.
+    + revert Hn1. generalize (can_recover s). intros [[|]|] Hn1; try discriminate Hn1. reflexivity.
     + apply action_eqb_eq in Hn2. exact Hn2.
-  - destruct (preds 0); [reflexivity|discriminate].
+  - revert Hp0. generalize (preds 0). intros [|x l] Hp0; [reflexivity|discriminate Hp0].
   - intros s t Hs Ht. unfold cells_ok in Hcells. rewrite forallb_forall in Hcells.
     assert (Hin : In s states) by (apply in_seq; lia). specialize (Hcells s Hin).
     rewrite forallb_forall in Hcells. apply Hcells. apply in_seq. lia.
@@ -226,8 +227,10 @@ Qed.
 
 Lemma rank_f_le : forall k s, rank_f k s <= k.
 Proof.
-  induction k as [|k IH]; intros s; simpl; [lia|].
-  induction (unit_succ s) as [|x l IHl]; simpl; [lia|]. specialize (IH x). lia.
+  induction k as [|k IH]; intros s; [simpl; lia|].
+  change (rank_f (S k) s) with (fold_right Nat.max 0 (map (fun s' => S (rank_f k s')) (unit_succ s))).
+  generalize (unit_succ s). intros l.
+  induction l as [|x l IHl]; cbn [map fold_right]; [lia|]. specialize (IH x). lia.
 Qed.
 Lemma rank_le : forall s, rank s <= p_num_states.
 Proof. intros s. apply rank_f_le. Qed.
@@ -364,8 +367,8 @@ Proof.
     + match goal with X : In (T _, _) (preds s) |- _ => rename X into Hin end.
       pose proof (Hall _ Hin) as Hk. simpl in Hk.
       match goal with X : spath ((q, b) :: rest) _ |- _ => rename X into Hsp' end.
-      destruct (IH _ _ _ _ Hsp' Hk) as (top & q' & b' & rest' & w0 & wseg & lbls & He & Hl & Hp & Hw & Hi & Hd & Hg).
-      exists ((s, ATok tok) :: top), q', b', rest', w0, (wseg ++ [tok]), (T (fst tok) :: lbls).
+      destruct (IH _ _ _ _ Hsp' Hk) as (top & q' & b' & rest' & ww0 & wseg & lbls & He & Hl & Hp & Hw & Hi & Hd & Hg).
+      exists ((s, ATok tok) :: top), q', b', rest', ww0, (wseg ++ [tok]), (T (fst tok) :: lbls).
       repeat split.
       * simpl. rewrite He. reflexivity.
       * simpl. lia.
@@ -378,8 +381,8 @@ Proof.
     + match goal with X : In (NT _, _) (preds s) |- _ => rename X into Hin end.
       pose proof (Hall _ Hin) as Hk. simpl in Hk.
       match goal with X : spath ((q, b) :: rest) _ |- _ => rename X into Hsp' end.
-      destruct (IH _ _ _ _ Hsp' Hk) as (top & q' & b' & rest' & w0 & wseg & lbls & He & Hl & Hp & Hw & Hi & Hd & Hg).
-      exists ((s, ASx v) :: top), q', b', rest', w0, (wseg ++ w1), (NT n :: lbls).
+      destruct (IH _ _ _ _ Hsp' Hk) as (top & q' & b' & rest' & ww0 & wseg & lbls & He & Hl & Hp & Hw & Hi & Hd & Hg).
+      exists ((s, ASx v) :: top), q', b', rest', ww0, (wseg ++ w1), (NT n :: lbls).
       repeat split.
       * simpl. rewrite He. reflexivity.
       * simpl. lia.
@@ -523,14 +526,13 @@ Proof.
     subst l inp. inversion Hreal; subst.
     destruct (at_input_next ts) as [tok' [inp' Hnext]]. unfold at_input in Hnext. rewrite Hnext.
     exists (w ++ [tok]), ts. repeat split; auto.
-    + destruct stk0 as [|[q b] rest].
-      * inversion Hsp; subst. apply (sp_T 0 (ASx XNil) [] [] (fst tok) tok s'); auto.
-        -- constructor.
-        -- apply preds_shift. rewrite (action_at_some 0 (fst tok) Hs Hty). rewrite Eact. reflexivity.
-        -- destruct H1 as [H1 _]. exact H1.
-      * apply (sp_T s a ((q, b) :: rest) w (fst tok) tok s'); auto.
-        -- apply preds_shift. rewrite (action_at_some s (fst tok) Hs Hty). rewrite Eact. reflexivity.
-        -- destruct H1 as [H1 _]. exact H1.
+    + assert (Hne' : snd tok <> []) by (destruct H1 as [H1 _]; exact H1).
+      assert (Hpre : In (T (fst tok), s) (preds s')).
+      { apply preds_shift. rewrite (action_at_some s (fst tok) Hs Hty), Eact. reflexivity. }
+      destruct stk0 as [|[q b] rest].
+      * inversion Hsp; subst.
+        apply (sp_T 0 (ASx XNil) [] [] (fst tok) tok s'); [constructor|exact Hpre|reflexivity|exact Hne'].
+      * apply (sp_T s a ((q, b) :: rest) w (fst tok) tok s'); [exact Hsp|exact Hpre|reflexivity|exact Hne'].
     + rewrite <- app_assoc. reflexivity.
     + unfold measure. simpl top_state. simpl length.
       apply measure_dec; [lia|]. pose proof (rank_le s'). lia.
@@ -558,7 +560,8 @@ Proof.
     assert (Hq : q < p_num_states).
     { pose proof (spath_states _ _ Hp) as Hq. inversion Hq; subst. assumption. }
     destruct (tmpl_safe _ _ _ _ Hd HgX Htm) as [Herr|[v Hv]].
-    + rewrite Herr. rewrite new_error_ok by assumption. exact I.
+    + rewrite Herr. destruct (nth_error action_tab q) eqn:Eq; [exact I|].
+      apply nth_error_None in Eq. rewrite (lp_alen Hparts) in Eq. lia.
     + rewrite Hv. rewrite (goto_at_gto _ _ _ Eg).
       exists (w0 ++ wseg), l. repeat split; auto.
       * apply sp_NT with (n := lhs); auto.
@@ -572,10 +575,11 @@ Proof.
            { apply (lp_rank Hparts s s' Hs). unfold unit_succ. apply in_flat_map. exists (fst tok). split.
              - apply in_seq. lia.
              - rewrite Eact, Ep. destruct rhs as [|X [|Y rhs']]; simpl in Hl; try lia.
-               rewrite Hl in Hi. simpl in Hi. apply in_flat_map in Hi. destruct Hi as [[X' q'] [Hpre Hm]].
+               simpl in Hi. apply in_flat_map in Hi. destruct Hi as [[X' q'] [Hpre Hm]].
                simpl in Hm. destruct Hm as [Hm|[]]. inversion Hm; subst.
-               apply in_flat_map. exists (X', q). split; auto. simpl. rewrite Eg. left. reflexivity. }
-           rewrite H1. lia.
+               apply in_flat_map. exists (X, q). split; auto. simpl. rewrite Eg. left. reflexivity. }
+           rewrite H1. replace (top_state (top ++ (q, b) :: rest)) with s by (rewrite <- He; reflexivity).
+           replace (2 * length l + (1 + S (length rest))) with (2 * length l + S (S (length rest))) by lia. lia.
         -- apply measure_dec; [lia|]. pose proof (rank_le s'). lia.
   - (* accept *)
     unfold accept_ok in Hcell. repeat (apply andb_prop in Hcell; destruct Hcell as [Hcell ?]).
@@ -592,7 +596,7 @@ Proof.
     match goal with X : derives_seq o [] _ _ |- _ => inversion X; subst end.
     rewrite app_nil_r. simpl. split; auto.
     destruct (at_input_cases _ _ _ Hin) as [[ts [Hl' _]]|[Hl' _]]; auto.
-    subst l. inversion Hreal; subst. destruct H3 as [_ [_ Hneq]]. congruence.
+    subst l. apply Forall_inv in Hreal. destruct Hreal as [_ [_ Hneq]]. congruence.
 Qed.
 
 (* ---- the loop ---- *)
